@@ -52,7 +52,7 @@ pub fn run(args: Vec<String>) {
                     g.add_tmpl(base, &src);
                     let deps: Vec<String> = g.direct_dependencies(base).map(|x| x.collect()).unwrap_or_default();
                     let sdeps: Vec<String> = g.script_dependencies(base).map(|x| x.collect()).unwrap_or_default();
-                    writeln!(out, "{}\t{}\t{}\t{}\t{}", base, rel, if suffix { 1 } else { 0 }, deps.join("\u{1}"), sdeps.join("\u{1}")).unwrap();
+                    writeln!(out, "{}\t{}\t{}\t{}\t{}", base, rel, if suffix { 1 } else { 0 }, serde_json::to_string(&deps).unwrap(), serde_json::to_string(&sdeps).unwrap()).unwrap();
                 }
             }
         }
